@@ -374,6 +374,40 @@ fn run_program(mut rq: Request, sh: &Arc<Shared>, rx: usize) {
                 seq: simrt::seq(),
             });
         }
+        BodyPlan::Exactly(k) => {
+            let mut data = Vec::new();
+            let mut eof = false;
+            let mut err = None;
+            let mut reads = 0;
+            sh.ev(Ev::AsReader {
+                id: id.clone(),
+                seq: simrt::seq(),
+            });
+            let rd = rq.as_reader();
+            while data.len() < *k {
+                let mut b = vec![0u8; (*k - data.len()).min(4096)];
+                reads += 1;
+                match rd.read(&mut b) {
+                    Ok(0) => {
+                        eof = true;
+                        break;
+                    }
+                    Ok(n) => data.extend_from_slice(&b[..n]),
+                    Err(e) => {
+                        err = Some(format!("{:?}", e.kind()));
+                        break;
+                    }
+                }
+            }
+            sh.ev(Ev::BodyRead {
+                id: id.clone(),
+                data: B(data),
+                eof,
+                err,
+                reads,
+                seq: simrt::seq(),
+            });
+        }
         BodyPlan::ToEof { .. } | BodyPlan::Mixed { .. } => {
             let (sizes, buf) = match &prog.body {
                 BodyPlan::ToEof { buf } => (vec![], *buf),
